@@ -339,3 +339,13 @@ def rules(chk: Check) -> None:
     r02_3(chk)
     r02_4(chk)
     r02_56(chk)
+    # R02.7: the template model's closed forms are flux conservation with its own equation of state: T- from energy-flux continuity,
+    # T+ = Tn w+^(1/mu), the same alpha+(v+, v-) relation in every routine (identities shared with C15 R15.5)
+    from ..core import Remap
+    from . import c15
+    c15.r15_5(Remap(chk, {"R15.5": "R02.7"}))
+    chk.floor("R02.7", 4)
+    # R02.8: the exact matching is not silently replaced by the template's: sign-tested root searches bracket between the tested points
+    from .shared import guarded_brackets
+    guarded_brackets(chk, "R02.8", ["hydrodynamics:Hydrodynamics.findMatching", "hydrodynamics:Hydrodynamics.matchDeton",
+                                    "hydrodynamics:Hydrodynamics.matchDeflagOrHyb"], floor=2)
